@@ -330,12 +330,12 @@ Proof.
   - rewrite orb_diag. apply val_eqb_sym.
 Qed.
 
-(* ---------------- the engine's fold depends on the order: witness *)
+(* ---------------- the fold as it was BEFORE the fix (physical order) depends on the order: witness *)
 Definition witness_rule : vrule :=
   REnum [VC2 (VStr "A") (VStr "B") (VStr "C"); VC1 (VStr "C") (VStr "D")] (VStr "E").
 
-Lemma enumerated_fold_order_refuted :
-  exists r l l', Permutation l l' /\ vp_group_impl r l <> vp_group_impl r l'.
+Lemma fold_before_fix_order_dependent :
+  exists r l l', Permutation l l' /\ vp_group_before_fix r l <> vp_group_before_fix r l'.
 Proof.
   exists witness_rule, [VStr "A"; VStr "B"; VStr "C"], [VStr "C"; VStr "B"; VStr "A"]. split.
   - apply Permutation_rev with (l := [VStr "A"; VStr "B"; VStr "C"]).
@@ -407,9 +407,9 @@ Section Safe.
   Qed.
 End Safe.
 
-Lemma enumerated_fold_partial dom cls d l l' :
+Lemma fold_before_fix_partial dom cls d l l' :
   enum_order_safe dom cls d = true -> Forall (fun v => In v dom) l -> Permutation l l' ->
-  vp_group_impl (REnum cls d) l = vp_group_impl (REnum cls d) l'.
+  vp_group_before_fix (REnum cls d) l = vp_group_before_fix (REnum cls d) l'.
 Proof.
   unfold enum_order_safe. rewrite andb_true_iff. intros [Hc Ha] HF Hp. simpl.
   eapply fold1_perm_D; eauto. apply enumerated_pair_comm.
@@ -477,15 +477,34 @@ Proof.
   - apply aggregate_group_perm. exact Hp.
 Qed.
 
-(* where the order-safety check passes (and the values are canonical) the engine's fold IS the specification *)
+(* the engine's fold (sorted) IS the specification, hence a function of the multiset of values, for every rule *)
+Lemma vp_group_impl_is_spec r l : vp_group_impl r l = vp_group r l.
+Proof. destruct r; reflexivity. Qed.
+
+Lemma vp_group_impl_perm r l l' : Permutation l l' -> vp_group_impl r l = vp_group_impl r l'.
+Proof. intros Hp. rewrite !vp_group_impl_is_spec. apply vp_group_perm. exact Hp. Qed.
+
+(* the value an aggregation / analytic invocation gives to a group or partition (rule or no rule) does not depend on
+   the order of its datapoints *)
+Lemma grp_perm rule l l' : Permutation l l' -> grp false rule l = grp false rule l'.
+Proof.
+  intros Hp. destruct rule as [r|]; simpl; [apply vp_group_impl_perm; exact Hp|].
+  unfold vp_no_rule_group. pose proof (Permutation_length Hp) as HL.
+  destruct l as [|a [|b t]].
+  - apply Permutation_nil in Hp. subst. reflexivity.
+  - apply Permutation_length_1_inv in Hp. subst. reflexivity.
+  - destruct l' as [|a' [|b' t']]; simpl in HL; try discriminate. reflexivity.
+Qed.
+
+(* where the order-safety check passes (and the values are canonical) even the fold before the fix was the specification *)
 Lemma canon_map_id l : Forall canon l -> map vcanon l = l.
 Proof. intros H. induction H; simpl; auto. rewrite H, IHForall. reflexivity. Qed.
 
-Lemma impl_is_spec_when_safe dom cls d l :
+Lemma before_fix_is_spec_when_safe dom cls d l :
   enum_order_safe dom cls d = true -> Forall (fun v => In v dom) l -> Forall canon l ->
-  vp_group_impl (REnum cls d) l = vp_group (REnum cls d) l.
+  vp_group_before_fix (REnum cls d) l = vp_group (REnum cls d) l.
 Proof.
-  intros Hs HD HC. rewrite (enumerated_fold_partial dom cls d l (vsort l) Hs HD (vsort_perm l)).
+  intros Hs HD HC. rewrite (fold_before_fix_partial dom cls d l (vsort l) Hs HD (vsort_perm l)).
   simpl. rewrite canon_map_id; auto.
 Qed.
 
